@@ -17,11 +17,11 @@ if diff <(git diff) $OUT/patch.diff >/dev/null; then echo "worktree diff == patc
 echo "## demo WITH patch (expected: fails)" >> $L
 cargo test -p $PKG --test $TEST --offline > /tmp/confirm-$ID-with.log 2>&1; RC_WITH=$?
 grep -E "^test result|^test .* (FAILED|ok)$" /tmp/confirm-$ID-with.log >> $L
-git stash -q
+git apply -R $OUT/patch.diff   # (not git stash: the stash is shared by all worktrees)
 echo "## demo WITHOUT patch (expected: passes)" >> $L
 cargo test -p $PKG --test $TEST --offline > /tmp/confirm-$ID-without.log 2>&1; RC_WITHOUT=$?
 grep -E "^test result|^test .* (FAILED|ok)$" /tmp/confirm-$ID-without.log >> $L
-git stash pop -q
+git apply $OUT/patch.diff
 echo "## existing suite WITH patch, demo file moved away (expected: passes)" >> $L
 mv "$DEMO" /tmp/confirm-$ID-demo.rs
 cargo test --workspace --no-fail-fast --offline > /tmp/confirm-$ID-suite.log 2>&1; RC_SUITE=$?
